@@ -56,6 +56,7 @@ func c11One(R *vlib.Out, tg c11Target, in []byte) {
 	R.Eval()
 	c11Target0.Store(tg.name)
 	c11Current.Store(string(in))
+	vlib.Breadcrumb(tg.name, in)
 	atomic.AddInt64(&c11Progress, 1)
 	for _, strict := range []bool{true, false} {
 		data := make([]byte, len(in))
@@ -113,7 +114,32 @@ func c11Lookup(R *vlib.Out, in []byte, tag string) {
 	}
 }
 
+// rssMiB reads the resident set size of this process.
+func rssMiB() int64 {
+	b, err := os.ReadFile("/proc/self/statm")
+	if err != nil {
+		return 0
+	}
+	var size, rss int64
+	fmt.Sscanf(string(b), "%d %d", &size, &rss)
+	return rss * 4096 >> 20
+}
+
 func startWatchdog(R *vlib.Out) {
+	// memory watchdog: a single parse that makes the process grow past 2 GiB is reported as a
+	// resource-exhaustion violation with the input at hand (a peer must not be able to do that)
+	go func() {
+		for {
+			time.Sleep(50 * time.Millisecond)
+			if rssMiB() > 2048 {
+				cur, _ := c11Current.Load().(string)
+				tgt, _ := c11Target0.Load().(string)
+				R.Violate("memory-blowup", fmt.Sprintf("resident memory exceeded 2 GiB in %s on %s", tgt, strconv.Quote(cur)), c11Replay{tgt, []byte(cur), ""})
+				R.Finish()
+				os.Exit(0)
+			}
+		}
+	}()
 	go func() {
 		last := int64(-1)
 		stuck := 0
@@ -193,7 +219,7 @@ func enumC11(R *vlib.Out, maxLen, maxTok int) {
 	}
 	// (ii) framed token strings
 	for ti, tg := range targets {
-		toks := append([]string{"\x01", "=", "35", "34", "10", "0", "1", "2", "A"}, tg.tokens...)
+		toks := append([]string{"\x01", "=", "35", "34", "10", "0", "1", "2", "A", "-1", "9223372036854775807", "4611686018427387904", "99999999"}, tg.tokens...)
 		seq := make([]int, 0, maxTok)
 		var rec2 func()
 		n := 0
